@@ -252,7 +252,9 @@ def replay(path):
     case = json.load(open(path))["case"]
     data = bytes.fromhex(case["bytes"]["hex"])
     o = _base((case["base"], data))
+    hit = 0
     for sig, lst in o.viol.items():
-        if case["mode"] in sig:
+        if f"|{case['mode']}|" in sig:
             print(sig, lst[0][2])
-    return 0
+            hit = 1
+    return hit
